@@ -314,6 +314,7 @@ class Gen:
             if self.leak and rng.random() < 0.5:
                 pool.append(self.leak.pop(rng.randrange(len(self.leak))))
         cands = pool[nargs:] or pool
+        self.last_pool = list(cands)
         nout = rng.randint(1, 3)
         outs = {f"o{i}": rng.choice(cands) for i in range(nout)}
         ins = {f"a{i}": a for i, a in enumerate(self.args)}
